@@ -577,7 +577,7 @@ def oracle_C06(rs, n, ctx):
         cells, d, _ = rand_setup(rs, nd, 1, 9 if nd == 2 else 4)
         v, kind = gens.rand_model(rs, cells)
         o = [float(rs.choice([-64.0, 8.0, 1024.0, 0.3, -1e6, 12345.678])) for _ in range(nd)]
-        multi = rs.rand() < 0.4
+        multi = rs.rand() < 0.5
         nsrc = int(rs.randint(2, 4)) if multi else 1
         srels = [np.array(gens.rand_source_rel(rs, cells, d)[0]) for _ in range(nsrc)]
         srcs0 = np.array(srels)
@@ -602,7 +602,11 @@ def oracle_C06(rs, n, ctx):
         AZ = az if multi else [az]
         A1 = a1 if multi else [a1]
         R.case((nd, cells, d, tuple(o), multi, representable), {"nd": nd, "cells": list(cells), "d": list(d), "o": o, "multi": multi, "representable": representable})
-        for t0, tz, t1 in zip(A0, AZ, A1):
+        for k_, (t0, tz, t1) in enumerate(zip(A0, AZ, A1)):
+            if not np.array_equal(np.asarray(t1.source), srcs1[k_]) or not np.array_equal(np.asarray(t0.source), srcs0[k_]):
+                R.violate("C06:source-carried", f"traveltime grid {k_} does not carry the source it was solved for", rep)
+            if not np.array_equal(np.asarray(t1.origin), np.asarray(o, dtype=float)):
+                R.violate("C06:origin-carried", f"traveltime grid {k_} does not carry the model origin", rep)
             if not (np.array_equal(t0.grid, tz.grid) and np.array_equal(t0._gradient, tz._gradient)):
                 R.violate("C06:none-vs-zero", "origin=None differs from the zero vector", rep)
             size = sum(cells[a] * d[a] for a in range(nd))
